@@ -51,13 +51,14 @@ def mini_streets(min_bet: Any, hole: int = 2) -> tuple:
 def h_showdown(ctx: Any, n: int, depth: int, hilo: bool = False, boards: int = 1,
                mode: str = 'T', shape: str = 'free', deck: str = 'identity',
                levels: int = 0, trim: bool = True, ante: int = 0, part: Any = None,
-               lo_levels: int = 0, conserve: bool = False) -> None:
+               lo_levels: int = 0, conserve: bool = False, fixed: Any = None) -> None:
     C.set_deck_order(deck)
     levels = levels or n
     types: tuple = (make_symhand(ctx, 'H', False, levels),)
     if hilo:
         types += (make_symhand(ctx, 'L', True, lo_levels or levels, allow_none=True),)
-    stacks = tuple(ctx.int(f's{i}', 1, MAXCHIP) for i in range(n))
+    fixed = fixed or {}
+    stacks = tuple(fixed[str(i)] if str(i) in fixed else ctx.int(f's{i}', 1, MAXCHIP) for i in range(n))
     ctx.constrain(part)
     cfg = dict(n=n, stacks=stacks, blinds=(1, 2), min_bet=2, antes=ante,
                ante_trimming_status=trim,
@@ -65,9 +66,15 @@ def h_showdown(ctx: Any, n: int, depth: int, hilo: bool = False, boards: int = 1
                streets=mini_streets(2), hand_types=types, starting_board_count=boards)
     snap: dict = {}
     pushes: list = []
+    folded: list = []
+    dealt: dict = {i: [] for i in range(n)}
 
     def mon(state: Any, op: Any) -> None:
         ctx.ops += 1
+        if type(op).__name__ == 'Folding':
+            folded.append(op.player_index)
+        elif type(op).__name__ == 'HoleDealing':
+            dealt[op.player_index].extend(op.cards)
         if conserve:
             C.check_conservation(ctx, state, type(op).__name__)     # C01 monitor on every deal at once
         if isinstance(op, ChipsPushing):
@@ -99,6 +106,27 @@ def h_showdown(ctx: Any, n: int, depth: int, hilo: bool = False, boards: int = 1
                     C.call(ctx, st.fold)
                 else:
                     C.call(ctx, st.check_or_call)
+        elif shape == 'brf':
+            # first actor bets/raises x, the next calls (possibly all-in for less), the third raises y, the first folds
+            acts = ['r', 'c', 'r', 'f']
+            k = 0
+            first_actor = st.actor_index
+            while at_decision(st) and k < len(acts):
+                a = acts[k]
+                k += 1
+                if a == 'r':
+                    x = ctx.int(f'x{k}', 0, 2 * MAXCHIP)
+                    if st.can_complete_bet_or_raise_to(x):
+                        C.call(ctx, st.complete_bet_or_raise_to, x)
+                        ctx.cover('raised')
+                    else:
+                        C.call(ctx, st.check_or_call)
+                elif a == 'f' and st.actor_index == first_actor and st.can_fold():
+                    C.call(ctx, st.fold)
+                    ctx.cover('dead-money')
+                else:
+                    C.call(ctx, st.check_or_call)
+            finish(ctx, st)
         else:
             for step in range(depth):
                 if not at_decision(st):
@@ -169,6 +197,27 @@ def h_showdown(ctx: Any, n: int, depth: int, hilo: bool = False, boards: int = 1
             ctx.check(st.payoffs[i] == win[i] - contrib[i], 'final-payoff', i)
             if not live[i]:
                 ctx.check(win[i] == 0, 'dead-hand-wins')
+        # second oracle: every player who did not fold tables his hand (a hand that holds a best hand
+        # somewhere must not have been mucked or killed) - see C12 for the two-pass construction
+        from harness.oracle import contenders
+        in_hand = [i not in folded for i in range(n)]
+
+        def strength2(i: int, b: int, t: int) -> Any:
+            return types[t].lookup.strength(tuple(dealt[i]) + snap['boards'][b])
+        pots1 = side_pots(lv_contrib, in_hand, dead)
+        if all(e for _, e in pots1):
+            cont = contenders(pots1, n, len(snap['boards']), len(types), strength2)
+            for i in range(n):
+                if in_hand[i] and cont[i]:
+                    ctx.check(live[i], 'hand-that-holds-a-best-hand-was-mucked-or-killed', lambda: f'player {i}')
+            pots2 = side_pots(lv_contrib, [in_hand[i] and cont[i] for i in range(n)], dead)
+            try:
+                win2, _ = award(pots2, n, len(snap['boards']), len(types), strength2)
+                conds = [st.payoffs[i] == win2[i] - contrib[i] for i in range(n)]
+                if not C.all_true(conds):
+                    ctx.fail('payoffs-differ-from-everybody-shows', lambda: f'payoffs {st.payoffs} oracle {win2} contrib {contrib}')
+            except NoRule:
+                pass
     finally:
         C.set_monitor(None)
 
@@ -199,6 +248,16 @@ def jobs(tier: str, seed: int) -> list[dict]:
                                 fn='h_showdown',
                                 params=dict(n=2, depth=2, hilo=True, deck=deck, _preset=pre, part=part),
                                 budget_s=B, must_cover=mc if k else []))
+    out.append(dict(name='allin/n2/hilo/2boards/stacks-50-50', fn='h_showdown',
+                    params=dict(n=2, depth=0, shape='allin', deck=deck, boards=2, hilo=True, levels=2, lo_levels=1,
+                                fixed={'0': 50, '1': 50}),
+                    budget_s=B, must_cover=mc))
+    # dead money of a folder above the second-highest LIVE bet: bet x, short call (symbolic stack), raise y, fold
+    for seat in (0, 1, 2):
+        fx = {str(i): 1000 for i in range(3) if i != seat}
+        out.append(dict(name=f'bet-call-raise-fold/n3/hi/short-seat{seat}', fn='h_showdown',
+                        params=dict(n=3, depth=0, shape='brf', deck=deck, levels=2, fixed=fx),
+                        budget_s=B, must_cover=[]))
     out.append(dict(name='allin/n2/hi/2boards', fn='h_showdown',
                     params=dict(n=2, depth=0, shape='allin', deck=deck, boards=2, levels=2),
                     budget_s=B, must_cover=mc))
